@@ -210,4 +210,39 @@ mod verif_c02_message {
         kani::cover!(r.is_some() && vs::df_of(&d) == 17, "accepted DF17");
         kani::cover!(true, "reach_end");
     }
+
+    // ------------------------------------------------------------------ bounded: concrete frames
+    // Cheap safety net for the case where the symbolic obligations above cannot be decided for
+    // some implementation of the parity test (seen: an implementation that builds byte vectors
+    // exhausts CBMC's memory on symbolic frames): fully concrete digit vectors.
+    static mut SAMPLE: usize = 0;
+    const DF17_GOOD: [u32; 28] = [8, 13, 4, 0, 6, 2, 1, 13, 5, 8, 12, 3, 8, 2, 13, 6, 9, 0, 12, 8, 10, 12, 2, 8, 6, 3, 10, 7];
+    fn clean_stub_sample(_line: &str) -> Option<Vec<u32>> {
+        let mut v = DF17_GOOD.to_vec();
+        match unsafe { SAMPLE } {
+            0 => {}
+            1 => v[27] ^= 1,  // last parity bit
+            2 => v[10] ^= 8,  // a data bit
+            3 => v[2] ^= 2,   // an address bit
+            _ => v[20] ^= 15, // a 4-bit burst
+        }
+        Some(v)
+    }
+
+    //@ob id=C04.get_message.concrete_samples flags=noassert props=C04,C02 tier=quick kind=harness fns=utils.rs:get_message bounded=1-intact+4-corrupted-concrete-DF17-frames
+    //@region BOUNDED, concrete digit vectors: the intact squitter 8D40621D58C382D690C8AC2863A7 is accepted; the same frame with its last parity bit, a data bit, an address bit or a 4-bit burst flipped is rejected
+    #[kani::proof]
+    #[kani::stub(clean_squitter, clean_stub_sample)]
+    #[kani::unwind(120)]
+    fn c04_get_message_concrete_samples() {
+        unsafe { SAMPLE = 0 };
+        assert!(get_message("x").is_some(), "the intact squitter is accepted");
+        let mut k = 1;
+        while k <= 4 {
+            unsafe { SAMPLE = k };
+            assert!(get_message("x").is_none(), "a corrupted squitter is rejected");
+            k += 1;
+        }
+        kani::cover!(true, "reach_end");
+    }
 }
